@@ -35,7 +35,7 @@ def REAL(**kw):
     return Env("real", **kw)
 
 
-def start_real_growers(env, nb, K, deltas, buf=False):
+def start_real_growers(env, nb, K, deltas, buf=False, first=1):
     """real mode: growers are real threads gated step by step on the real disk"""
     from ..realsched import RealSteps
 
@@ -43,7 +43,7 @@ def start_real_growers(env, nb, K, deltas, buf=False):
     rs.buffered = buf
     rs.install(env, cp)
     rdir = crop_dir(env) + "/results"
-    for g in range(1, nb + 1):
+    for g in range(first, nb + 1):
         gcrop = cp.Crop(name="t", parent_dir=env.parent)
         rs.start_writer((lambda gg, cc: (lambda: cp.grow(gg, crop=cc, verbosity=0)))(g, gcrop),
                         paths={rdir + "/xyz-result-%d.jbdmp" % g})
@@ -51,12 +51,12 @@ def start_real_growers(env, nb, K, deltas, buf=False):
     return rs
 
 
-def record_growers(env, crop, nb):
+def record_growers(env, crop, nb, first=1):
     """run each grower alone from the sown state; return (base files, per-grower logs)"""
     fs = env.fs
     base = dict(fs.files)
     logs = []
-    for g in range(1, nb + 1):
+    for g in range(first, nb + 1):
         fs.files = dict(base)
         fs.start_recording()
         cp.grow(g, crop=crop, verbosity=0)
@@ -91,6 +91,34 @@ def body_wait(E, nb, per, K, base, d0, d1, d2, d3, d4, d5, d6, d7, d8, d9, buf=F
             if rs is not None:
                 rs.finish_all()
         return out == ref and not env.exists(crop_dir(env))
+
+
+def body_wait_ai(E, K, base, d0, d1, d2, d3, d4, d5, d6, d7, d8, d9, buf=False, ai=True):
+    """batch 1 already finished, batch 2 being grown: reap(wait=True, allow_incomplete=...) waits for the grower
+    (`wait` takes priority: Reaper only uses the stand-in `if not wait`) and returns the full direct-run result"""
+    K = concretize(K, 2, 3)
+    deltas = [d0, d1, d2, d3, d4, d5, d6, d7, d8, d9]
+    fn = mkfn(base)
+    with E() as env:
+        ref = combo_runner(fn, grid(2), verbosity=0)
+        crop = cp.Crop(fn=fn, name="t", parent_dir=env.parent, batchsize=1)
+        crop.sow_combos(grid(2), verbosity=0)
+        cp.grow(1, crop=crop, verbosity=0)
+        rs = None
+        if env.mode == "sym":
+            env.fs.K = K
+            env.fs.buffered = cbool(buf)
+            bfiles, logs = record_growers(env, crop, 2, first=2)
+            env.fs.begin_timeline(bfiles, logs, deltas)
+        else:
+            rs = start_real_growers(env, 2, K, deltas, cbool(buf), first=2)
+        reader = cp.Crop(name="t", parent_dir=env.parent)
+        try:
+            out = reader.reap(wait=True, allow_incomplete=cbool(ai))
+        finally:
+            if rs is not None:
+                rs.finish_all()
+        return out == ref
 
 
 def body_poll(E, nb, K, base, d0, d1, d2, d3, d4, d5, d6, d7, d8, d9, buf=False):
@@ -306,6 +334,9 @@ CONDS = [
               [" and ".join("0 <= d%d <= 4" % i for i in range(6))], timeout=600,
               bounds="a finished batch grown again by a second worker while reap(wait=True) reads it: every "
                      "placement of the reader's observations relative to the second grower's steps"),
+    make_cond(_G, "wait_ai", searching(body_wait_ai), "ai:bool base:int " + _D, [_DR], fixed=dict(K=2), timeout=600,
+              bounds="batch 1 finished, batch 2 being grown (K=2, writes immediate or buffered) while a fresh process "
+                     "calls reap(wait=True, allow_incomplete=True|False): it waits and returns the full result"),
     make_cond(_G, "wait_k3", body_wait, "nb:int base:int " + _D, ["1 <= nb <= 2", _DR], fixed=dict(per=1, K=3),
               timeout=1800, tiers=("thorough",), bounds="as wait/wait2 with K=3 chunks"),
 ]
